@@ -46,6 +46,27 @@ func good(i int, t uint64) ver {
 	return ver{Version: 2, Times: map[string]uint64{"bugs-create": t, "bugs-edit": t}, UnixTime: 1600000000 + int64(i), Name: fmt.Sprintf("crafted v%d", i), Email: "c@example.org", Nonce: nonce(i)}
 }
 
+// nameValues is the value alphabet of the name and login fields for the "no name and login" rule. The
+// reference reading: a value is there iff it has at least one rune that is neither white space nor
+// non-printing (format characters such as zero-width space, word joiner, byte-order mark, soft hyphen,
+// direction marks are not visible; none of them is a control character, so the "unsafe character"
+// rule does not apply to them).
+var nameValues = []struct {
+	class   string
+	s       string
+	visible bool
+}{
+	{"empty", "", false},
+	{"spaces", "  ", false},
+	{"nbsp", "\u00a0\u3000", false},
+	{"zero-width", "\u200b", false},
+	{"joiner-bom", "\u2060\ufeff", false},
+	{"soft-hyphen", "\u00ad", false},
+	{"direction-mark", "\u200e\u200f", false},
+	{"mixed", "\u200bx\u2060", true},
+	{"plain", "somebody", true},
+}
+
 // Case is one crafted chain. MustReject: the statement requires rejection; otherwise only
 // "no crash, no local damage" is required (Control cases must be accepted).
 type Case struct {
@@ -80,6 +101,26 @@ func Cases() []Case {
 			mut("no-name-no-login", true, func(v *ver) { v.Name, v.Login = "", "" })
 			mut("blank-name-no-login", true, func(v *ver) { v.Name, v.Login = " \t", "" })
 			mut("login-only", false, func(v *ver) { v.Name, v.Login = "", "somelogin" })
+			// "no name and login": every pair of values without any visible character must be refused,
+			// and a value with one visible character anywhere makes the version acceptable
+			for _, nm := range nameValues {
+				for _, lg := range nameValues {
+					nm, lg := nm, lg
+					if nm.s == "" && lg.s == "" {
+						continue // covered above
+					}
+					if nm.visible || lg.visible {
+						if nm.class != "mixed" && lg.class != "mixed" && n > 1 {
+							continue // plain values beside invisible ones: chains of length 1 only
+						}
+						c := base()
+						c[pos].Name, c[pos].Login = nm.s, lg.s
+						out = append(out, Case{Name: fmt.Sprintf("name-%s-login-%s-visible/len%d/pos%d", nm.class, lg.class, n, pos), Chain: c, Control: true})
+						continue
+					}
+					mut(fmt.Sprintf("name-%s-login-%s-invisible", nm.class, lg.class), true, func(v *ver) { v.Name, v.Login = nm.s, lg.s })
+				}
+			}
 			for _, ch := range []string{"\n", "\r", "\x00", "\x07", "\x1b", "\u0085"} {
 				ch := ch
 				mut(fmt.Sprintf("name-unsafe-%q", ch), true, func(v *ver) { v.Name = "a" + ch + "b" })
